@@ -76,13 +76,9 @@ class DbAdapter:
         r = self.rig.r
         self.cs = self.rig.cs
         self.r = r
-        first = r.core[0]
-        self.asm = {1: first}
-        for k in range(2, NOBJ_MAX + 1):
-            self.asm[k] = r.blueprints.constructAssem(self.cs, name=first.getType())
-        self.blk = {k: a[0] for k, a in self.asm.items()}
-        self.by_serial = {int(b.p.serialNum): k for k, b in self.blk.items()}
-        self.pdefs = [self.blk[1].p.paramDefs[name] for name in PARAMS]
+        self.first = r.core[0]
+        self.asm, self.blk, self.by_serial = {}, {}, {}
+        self.pdefs = [self.first[0].p.paramDefs[name] for name in PARAMS]
         self.home = os.getcwd()
         self.nworld = 0
         self._dumps = {}
@@ -127,6 +123,19 @@ class DbAdapter:
         ij = (int(ijk[0]), int(ijk[1]))
         return LOCS.index(ij) + 1 if ij in LOCS else self.odd("location %r" % ([int(x) for x in ijk],))
 
+    def create(self, k):
+        """Object k enters the history: object 1 is the assembly of the input; every other one is constructed now from the
+        blueprints, so it is a new identity (fresh serial numbers) -- in particular after a snapshot has been loaded."""
+        a = self.first if k == 1 else self.r.blueprints.constructAssem(self.cs, name=self.first.getType())
+        self.asm[k], self.blk[k] = a, a[0]
+        sn = int(a[0].p.serialNum)
+        if sn in self.by_serial:
+            self.clash = "object %d was created with the serial number %d of live object %d" % (k, sn, self.by_serial[sn])
+        self.by_serial[sn] = k
+        for p in (1, 2):
+            a[0].p[PARAMS[p - 1]] = self.real(p, 0)
+        return a
+
     def locator(self, l):
         i, j = LOCS[l - 1]
         return self.r.core.spatialGrid[i, j, 0]
@@ -144,15 +153,15 @@ class DbAdapter:
         for a in list(core):
             core.removeAssembly(a, discharge=False)
         w.live = set()
+        self.asm, self.blk, self.by_serial, self.clash = {}, {}, {}, None
         for k, flag in enumerate(root["live"], start=1):
-            for p in (1, 2):
-                self.blk[k].p[PARAMS[p - 1]] = self.real(p, root["par"][k - 1][p - 1] if p <= len(root["par"][k - 1]) else 0)
-            if flag:
-                core.add(self.asm[k], self.locator(root["loc"][k - 1]))
-                w.live.add(k)
-        for k in range(len(root["live"]) + 1, NOBJ_MAX + 1):
-            for p in (1, 2):
-                self.blk[k].p[PARAMS[p - 1]] = self.real(p, 0)
+            if not flag:
+                continue
+            a = self.create(k)
+            for p in range(1, self.npar + 1):
+                a[0].p[PARAMS[p - 1]] = self.real(p, root["par"][k - 1][p - 1])
+            core.add(a, self.locator(root["loc"][k - 1]))
+            w.live.add(k)
         self.r.p.cycle, self.r.p.timeNode = root["now"]
         self.r.p.time = self.time_of(*root["now"])
         w.nfile = 0
@@ -208,7 +217,7 @@ class DbAdapter:
                 core.removeAssembly(me, discharge=False)
                 core.add(me, target)
         elif n == "Birth":
-            core.add(self.asm[a["o"]], self.locator(a["l"]))
+            core.add(self.create(a["o"]), self.locator(a["l"]))
             w.live.add(a["o"])
         elif n == "Advance":
             r.p.cycle, r.p.timeNode = a["c"], a["t"]
@@ -221,7 +230,19 @@ class DbAdapter:
                     raise
                 w.err = "ValueError"
         elif n == "Load":
-            r2 = w.A.load(a["c"], a["t"], statePointName=a["l"] or None, cs=self.cs)
+            if a["via"] == "ro":
+                r2 = w.A.loadReadOnly(a["c"], a["t"], statePointName=a["l"] or None)
+            elif a["via"] == "state":
+                # Operator.loadState -> DatabaseInterface.loadState: the operator's reactor becomes the loaded one
+                try:
+                    w.o.loadState(a["c"], a["t"], a["l"])
+                    r2 = w.o.r
+                finally:
+                    w.o.reattach(self.r, self.cs)
+                if r2 is self.r:
+                    raise AssertionError("loadState did not attach a loaded reactor")
+            else:
+                r2 = w.A.load(a["c"], a["t"], statePointName=a["l"] or None, cs=self.cs)
             w.res = {"kind": "load", "cyc": int(r2.p.cycle), "nod": int(r2.p.timeNode), "st": self.state_view(r2)}
         elif n == "Rotate":
             w.A.close(a["ok"])
@@ -258,6 +279,8 @@ class DbAdapter:
                 continue
             b = a[0]
             o = self.by_serial.get(int(b.p.serialNum))
+            if self.clash and reactor is self.r:
+                o = self.odd(self.clash)
             if o is None:
                 o = self.odd("unknown block serial number %d" % int(b.p.serialNum))
             out.append({"o": o, "loc": self.loc_of(a.spatialLocator.getCompleteIndices()),
@@ -379,14 +402,17 @@ class DbAdapter:
             with Database(path, "r") as db:
                 names = [self.parse_name(g) for g in db.keys()]
                 snaps = []
-                for c, n, lab in names:
-                    r2 = db.load(c, n, statePointName=lab or None, cs=self.cs)
+                for i, (c, n, lab) in enumerate(names):
+                    # the two entry points of Database in turn
+                    r2 = db.load(c, n, statePointName=lab or None, cs=self.cs) if i % 2 == 0 else \
+                        db.loadReadOnly(c, n, statePointName=lab or None)
                     snaps.append({"cyc": int(r2.p.cycle), "nod": int(r2.p.timeNode), "st": self.state_view(r2)})
                 self._dumps = {key: {"ok": bool(db.h5db.attrs["successfulCompletion"]), "names": names, "snaps": snaps}}
         return self._dumps[key]
 
 
-RANK = {"Merge": 0, "Split": 0, "Load": 1, "Rotate": 1, "Write": 2, "Close": 3}  # rare database steps first
+GRAPHS = ("wide", "narrow", "births")
+RANK = {"Merge": 0, "Split": 0, "Load": 1, "Rotate": 1, "Birth": 1, "Write": 2, "Close": 3}  # rare steps first
 
 
 def edge_class(e):
@@ -403,7 +429,11 @@ def edge_class(e):
         return (n, min(len(before), 2), len(before) < len(sb), any(x["lab"] for x in before),
                 any((x["c"], x["n"]) == (a["c"], a["t"]) for x in sb))
     if n == "Load":
-        return (n, a["l"], ctx)
+        me = [x for x in sa if (x["c"], x["n"], x["lab"]) == (a["c"], a["t"], a["l"])]
+        twin = any((x["c"], x["n"]) == (a["c"], a["t"]) and x["lab"] != a["l"] and me and x["st"] != me[0]["st"] for x in sa)
+        return (n, a["via"], bool(a["l"]), twin, ctx)
+    if n == "Birth":
+        return (n, a["o"], ctx, min(len(sa), 2))
     if n == "Write":
         return (n, a["l"], e["err"], ctx, min(len(sa), 2))
     if n in ("Close", "Rotate"):
@@ -428,10 +458,12 @@ def class_order(graph, rng):
     return order
 
 
-def covering_replay(graph, obs_of, ad, budget, seed, part=(0, 1)):
+def covering_replay(graph, obs_of, ad, budget, seed, part=(0, 1), loads=0.0):
     """Execute edges of TLC's graph on real objects: for every target edge (classes in round-robin order, see class_order) the
     BFS path to its source is applied, then the edge; every edge that had not been checked before is checked when it is passed
     (one projection each).  part = (k, n): this call handles every n-th target starting with the k-th (worker processes).
+    loads = probability with which a Load edge of the current state (a self-loop of the graph: it changes no state variable, so
+    it lies on no BFS path) is executed before a step, so that reactor changes and writes *after a load* are replayed too.
     -> (indices of the checked edges, indices of the non-trivial ones among them, divergences)"""
     order = class_order(graph, random.Random(seed))
     k, n = part
@@ -448,7 +480,13 @@ def covering_replay(graph, obs_of, ad, budget, seed, part=(0, 1)):
         e = graph.edges[idx]
         if idx in checked or e["_fk"] not in graph.path:
             continue
-        steps = graph.path[e["_fk"]] + [e]
+        steps = []
+        for s in graph.path[e["_fk"]] + [e]:
+            here = [x for x in graph.succ.get(s["_fk"], ()) if x["act"]["n"] == "Load" and x["_tk"] == x["_fk"]]
+            if here and s["act"]["n"] != "Load" and rng.random() < loads:
+                fresh = [x for x in here if index[id(x)] not in checked]
+                steps.append(rng.choice(fresh or here))
+            steps.append(s)
         root = steps[0]["from"]
         w = ad.build(root)
         try:
@@ -604,7 +642,7 @@ def trace_driver(ad, ntraces, nev, seed, first=0):
                 elif x < 0.88:
                     if listing:
                         c, n, lab = rng.choice(listing)
-                        a = {"n": "Load", "c": c, "t": n, "l": lab}
+                        a = {"n": "Load", "c": c, "t": n, "l": lab, "via": rng.choice(["load", "ro", "state"])}
                 elif x < 0.94:
                     if not rotated and not split and listing:
                         rotated = True
@@ -735,7 +773,7 @@ class RunAdapter:
         roles, tight = run["roles"], run["tight"]
         ifs = [{"en": True, "bf": False, "rev": role == "main", "dfr": False, "cpl": tight and role == "f", "hlt": False}
                for role in roles]
-        st = go.stack_settings(ifs, 0, tight, 1, [False] * len(run["steps"]))
+        st = go.stack_settings(ifs, 0, tight, 1, list(run.get("skip") or [False] * len(run["steps"])))
         st.update({"db": True, "startCycle": sc, "startNode": sn, "loadStyle": "fromDB" if reload_name else "fromInput",
                    "reloadDBName": reload_name or ""})
         rig.configure(history=_history_settings(run["steps"]), settings=st)
@@ -813,7 +851,7 @@ def run_key(run, d):
         return "run:restart-from-%s:%s:%s" % ("aborted" if run["crash1"]["e"] != "none" else "completed",
                                               "completed" if cr["e"] == "none" else "abort:" + cr["e"], field)
     if cr["e"] == "none":
-        return "run:completed:%s" % field
+        return "run:completed:%s%s" % (field, ":exempt-cycles" if run["tight"] and any(run.get("skip") or []) else "")
     dbi = run["roles"].index("db") + 1
     where = "before-db" if cr["i"] < dbi else "after-db"
     return "run:abort:%s:%s:%s%s" % (cr["e"], where, field, "" if "main" in run["roles"] else ":no-main")
@@ -823,7 +861,10 @@ def run_class(r, fine):
     cr = r["crash"]
     dbi = r["roles"].index("db") + 1
     where = "-" if cr["e"] == "none" else "before" if cr["i"] < dbi else "after"
-    base = (r.get("phase", 1), r["crash1"]["e"] != "none", cr["e"], where, r["tight"])
+    # coupling: off / on / on with exempt cycles (then: is the cycle of the failure -- or any cycle of a completed run -- exempt)
+    skip = r.get("skip") or []
+    exempt = bool(r["tight"]) and (any(skip) if cr["e"] == "none" or cr["c"] < 0 else bool(skip[cr["c"]]))
+    base = (r.get("phase", 1), r["crash1"]["e"] != "none", cr["e"], where, r["tight"], exempt)
     return base + ((cr["i"], len(r["roles"])) if fine else (len(r["roles"]),) if cr["e"] in ("none", "BOL") else ())
 
 
@@ -877,7 +918,7 @@ def report_runs(rep, runs, results, total):
         if d:
             rep.violation(run_key(run, d.replace(".file", "", 1) if d.startswith(".file.") else d),
                           "the file left by a real run differs from RunWithDb for %s failing at %s: %s" % (
-                              json.dumps({k: run[k] for k in ("steps", "sc", "sn", "tight", "roles", "phase", "crash1")}),
+                              json.dumps({k: run[k] for k in ("steps", "sc", "sn", "tight", "skip", "roles", "phase", "crash1")}),
                               json.dumps(run["crash"]), d),
                           {"direction": "run", "part": "run", "run": run, "expected": exp, "observed": got, "first_difference": d})
     rep.add_replay("aborted-and-completed-runs", len(runs), nontrivial,
@@ -888,7 +929,7 @@ def report_runs(rep, runs, results, total):
                    "Database('r') and compared group by group; non-trivial = the run is aborted by an injected failure "
                    "(%d of the %d printed runs executed, every class of failure point before any is repeated)" % (len(runs), total))
     mid = runs[len(runs) // 2]
-    rep.sample({"kind": "run", "cfg": {k: mid[k] for k in ("steps", "sc", "sn", "tight", "roles")}, "failure": mid["crash"],
+    rep.sample({"kind": "run", "cfg": {k: mid[k] for k in ("steps", "sc", "sn", "tight", "skip", "roles")}, "failure": mid["crash"],
                 "expected_file": mid["file"]})
 
 
@@ -930,7 +971,8 @@ def do_job(job, ad=None, graphs=None):
         else:
             with open(job["prints"]) as f:
                 g, obs_of = emitted_graph(json.load(f))
-        checked, nontriv, divs = covering_replay(g, obs_of, ad or DbAdapter(), job["budget"], job["seed"], tuple(job["part"]))
+        checked, nontriv, divs = covering_replay(g, obs_of, ad or DbAdapter(), job["budget"], job["seed"], tuple(job["part"]),
+                                                 loads=job.get("loads", 0.0))
         return {"checked": checked, "nontrivial": nontriv, "divs": divs, "nedges": len(g.edges)}
     if kind == "traces":
         return {"traces": trace_driver(ad or DbAdapter(), job["count"], job["nev"], job["seed"], first=job["first"])}
@@ -1013,6 +1055,7 @@ def run(rep, tier, seed, parts=("db", "run")):
     fut = {}
     fut["wide"] = pool.submit(_cached_run, "DbHistory_mc", "DbHistory_emit%s.cfg" % sfx, DBDIR, workers=1, coverage=False, timeout=3000)
     fut["narrow"] = pool.submit(_cached_run, "DbHistory_mc", "DbHistory_emit2%s.cfg" % sfx, DBDIR, workers=1, coverage=False, timeout=3000)
+    fut["births"] = pool.submit(_cached_run, "DbHistory_mc", "DbHistory_emit3%s.cfg" % sfx, DBDIR, workers=1, coverage=False, timeout=3000)
     fut["runs"] = pool.submit(_cached_run, "RunWithDb_mc", "RunWithDb_emit%s.cfg" % sfx, RUNDIR, workers=1, coverage=False, timeout=3000)
     if not _SELFTEST:
         fut["db_mc"] = pool.submit(tlc.run, "DbHistory_mc", "DbHistory_mc%s.cfg" % sfx, DBDIR, want_prints=False, timeout=3000,
@@ -1022,14 +1065,15 @@ def run(rep, tier, seed, parts=("db", "run")):
     try:
         serial = _SELFTEST or os.environ.get("C06_PROCS", "4") == "1"
         # ---- plan the real-code work ----
-        budgets = {"wide": 1000 if thorough else 80, "narrow": 700 if thorough else 50}
-        splits = {"wide": 3 if thorough else 1, "narrow": 2 if thorough else 1}
+        budgets = {"wide": 900 if thorough else 80, "narrow": 600 if thorough else 45, "births": 400 if thorough else 30}
+        splits = {"wide": 3 if thorough else 1, "narrow": 2 if thorough else 1, "births": 1}
+        loads = {"wide": 0.25, "narrow": 0.25, "births": 1.0}
         ntr, nev, tsplit = (60, 30, 3) if thorough else (8, 16, 1)
-        max_runs, rsplit = ((240, 50), 4) if thorough else ((24, 6), 2)
+        max_runs, rsplit = ((260, 50), 4) if thorough else ((30, 6), 2)
         jobs, graphs, meta = [], {}, {}
         jobdir = common.workdir("c06prints")
         if "db" in parts:
-            for name in ("wide", "narrow"):
+            for name in GRAPHS:
                 eres = fut[name].result()
                 rep.add_tlc("edges:%s:DbHistory_emit" % name, eres)
                 _tlc_verdict(rep, eres, "DbHistory")
@@ -1042,7 +1086,7 @@ def run(rep, tier, seed, parts=("db", "run")):
                         json.dump([p for p in eres.prints if isinstance(p, dict)], f)
                 for k in range(splits[name]):
                     jobs.append({"kind": "edges", "graph": name, "prints": pf, "budget": budgets[name], "seed": seed,
-                                 "part": [k, splits[name]]})
+                                 "part": [k, splits[name]], "loads": loads[name]})
             per = -(-ntr // tsplit)
             for k in range(tsplit):
                 jobs.append({"kind": "traces", "first": k * per, "count": min(per, ntr - k * per), "nev": nev, "seed": seed})
@@ -1102,9 +1146,9 @@ def run(rep, tier, seed, parts=("db", "run")):
 
 
 def _report_db(rep, seed, graphs, jobs, results):
-    # spec -> code: two emitted graphs -- "wide" (objects that move and appear, two parameters, depth 4/5) and "narrow" (one
-    # object, deeper sequences of database steps)
-    for name in ("wide", "narrow"):
+    # spec -> code: three emitted graphs -- "wide" (objects that move and appear, two parameters, depth 4/5), "narrow" (one
+    # object, deeper sequences of database steps) and "births" (objects created after loads of older snapshots)
+    for name in GRAPHS:
         g, obs_of = graphs[name]
         checked, nontriv, divs = set(), set(), []
         for job, res in zip(jobs, results):
@@ -1119,13 +1163,15 @@ def _report_db(rep, seed, graphs, jobs, results):
                        "after it the real listing, snapshot names, hasTimeStep, one of the five history queries (seeded rotation: "
                        "getHistories of blocks / of assembly locations / with explicit timeSteps, getHistoriesByLocation, the "
                        "history tracker), the result of a load and, after close / rotate / merge / split, the complete contents of "
-                       "the closed files are compared with the values TLC printed for t; non-trivial = the edge changes the "
+                       "the closed files are compared with the values TLC printed for t; loads (Database.load / loadReadOnly / "
+                       "Operator.loadState) are also executed between the steps of a path; non-trivial = the edge changes the "
                        "abstract state (%s graph: %d of %d edges checked, every input class before any is repeated)" % (
                            name, len(checked), len(g.edges)))
         for d in divs:
             rep.violation(div_key(d), "real Database diverges from DbHistory after %s: %s" % (
                 json.dumps(d["behaviour"]), d["first_difference"]), dict(d, direction="replay", part="db"))
-        e = next((x for x in g.edges if x["act"]["n"] == ("Load" if name == "wide" else "Merge")), g.edges[len(g.edges) // 2])
+        e = next((x for x in g.edges if x["act"]["n"] == {"wide": "Load", "narrow": "Merge"}.get(name, "Birth") and x["lvl"] >= 3),
+                 g.edges[len(g.edges) // 2])
         rep.sample({"kind": "edge", "graph": name, "path": [s["act"] for s in g.path[e["_fk"]]], "act": e["act"],
                     "expected": {k: v for k, v in (obs_of(e) or {}).items() if k in ("steps", "names", "hist", "res", "err")}})
 
@@ -1355,6 +1401,14 @@ def selftest():
         ("close marks every file successful", V(D, "close", 'self.h5db.attrs["successfulCompletion"] = completedSuccessfully', 'self.h5db.attrs["successfulCompletion"] = True')),
         ("load ignores the label", V(D, "load", "h5group = self.h5db[getH5GroupName(cycle, node, statePointName)]", "h5group = self.h5db[getH5GroupName(cycle, node)] if getH5GroupName(cycle, node) in self.h5db else self.h5db[getH5GroupName(cycle, node, statePointName)]")),
         ("close leaves the file in the fast path", lambda: patched(D, "close", close_keeps_fast_path)),
+        ("load resets the serial-number counter to the snapshot's maximum (seed 2)",
+         V(D, "load", "parameterCollections.GLOBAL_SERIAL_NUM = max(\n            parameterCollections.GLOBAL_SERIAL_NUM, layout.serialNum.max()\n        )",
+           "parameterCollections.GLOBAL_SERIAL_NUM = int(layout.serialNum.max())")),
+        ("loadReadOnly does not forward the label (seed 5)",
+         V(D, "loadReadOnly", "r = self.load(cycle, node, statePointName=statePointName, allowMissing=True)",
+           "r = self.load(cycle, node, allowMissing=True)")),
+        ("DatabaseInterface.loadState ignores the label",
+         V(DI, "loadState", "statePointName=timeStepName,\n                        cs=self.cs,", "cs=self.cs,")),
         ("history tracker answers every step with the live value",
          V(HT, "getBlockHistoryVal", "if self._isCurrentTimeStep(ts) and not self._databaseHasDataForTimeStep(ts):", "if True:")),
         ("Database.__exit__ closes as successful although an exception is passing",
@@ -1368,6 +1422,11 @@ def selftest():
         ("interactEOL closes the database as unsuccessful", lambda: patched(DI, "interactEOL", eol_closes_unsuccessful)),
         ("interactEveryNode skips node 0 of later cycles", lambda: patched(DI, "interactEveryNode", every_node_skips_first_of_later_cycles)),
         ("close leaves the file in the fast path (runs)", lambda: patched(D, "close", close_keeps_fast_path)),
+        ("_performTightCoupling writes the database only in cycles that are not exempt from coupling (seed 1)",
+         V(OP, "_performTightCoupling",
+           "        if writeDB:\n            # database has not yet been written, so we need to write it.\n"
+           "            dbi = self.getInterface(\"database\")\n            dbi.writeDBEveryNode()",
+           "            if writeDB:\n                dbi = self.getInterface(\"database\")\n                dbi.writeDBEveryNode()")),
         ("prepRestartRun merges one node too many", V(DI, "prepRestartRun", "self._db.mergeHistory(inputDB, startCycle, startNode)", "self._db.mergeHistory(inputDB, startCycle, startNode + 1)")),
         ("prepRestartRun does not merge the history", V(DI, "prepRestartRun", "self._db.mergeHistory(inputDB, startCycle, startNode)", "pass")),
         ("writeDBEveryNode stores every node but the first of a cycle under a label", V(DI, "writeDBEveryNode", "self._db.writeToDB(self.r)", "self._db.writeToDB(self.r, 'x' if self.r.p.timeNode else None)")),
